@@ -14,6 +14,7 @@ class Renderer:
         self.bases = meta["bases"]
         self.ctlvar = meta["ctlvar"]
         self.locals = meta["locals"]
+        self.baselocals = meta.get("baselocals", {})
 
     # ---- small helpers ------------------------------------------------------------------
     def txt(self, n):
@@ -306,6 +307,9 @@ class Renderer:
     CTX_CLOSE = {"while": "}", "for": "}", "do": "} while (gi);", "if": "}", "else": "}", "block": "}", "switch": "}"}
     RET = {"void": None, "int": "0", "double": "0", "ptr_int": "0", "struct_S": "gs"}
 
+    FN_PREFIX = {"plain": "", "static": "static ", "inline": "inline ", "static_inline": "static inline ", "extern_inline": "extern inline ",
+                 "decl_inline": "inline ", "noreturn": "_Noreturn "}
+
     def program(self, base, pos, frag):
         b = self.bases[base]
         file_items, block_items = [], []
@@ -350,10 +354,14 @@ class Renderer:
         out += [e["decl"] for n, e in sorted(self.ents.items()) if e["decl"] and not e["loc"]]
         out += file_items
         ret = b["ret"]
-        out.append("%s(int pa%s)" % (self.decl(ret, "zbase").replace("zbase", "zbase", 1), ", ..." if b["var"] else ""))
+        head = "%s(int pa%s)" % (self.decl(ret, "zbase").replace("zbase", "zbase", 1), ", ..." if b["var"] else "")
+        fn = b.get("fn", "plain")
+        if fn == "decl_inline":
+            out.append(head + ";")
+        out.append(self.FN_PREFIX[fn] + head)
         out.append("{")
         out += ["\t" + e["decl"] for n, e in sorted(self.ents.items()) if e["decl"] and e["loc"]]
-        out += ["\t" + l for l in self.locals]
+        out += ["\t" + l for l in self.baselocals.get(base, self.locals)]
         if b["var"]:
             out += ["\t__builtin_va_list ap;", "\t__builtin_va_start(ap, pa);"]
         out.append("L1: ;")
